@@ -67,6 +67,9 @@ func (st *State) doCall(instr *ssa.Call, c *ssa.CallCommon, fnv Value, args []Va
 		if spec := e.specs.Funcs[key]; spec != nil {
 			spec.Used = true
 			e.trusted[key+" (interface contract)"] = true
+			if spec.Flags["counted"] != "" {
+				st.bumpCounter("NC_" + sanitize(key)) // ncalls("pkg.Iface.Method") counts invocations through the interface
+			}
 			r := st.applySpec(spec, sig, append([]Value{recv}, args...), pos, key, nil)
 			return st.finishCall(instr, r, deferred)
 		}
@@ -676,7 +679,11 @@ func (st *State) havocLocation(env *Env, m *Expr) {
 						if ex == nil {
 							ex = map[string]bool{}
 						}
-						ex["GH_"+sanitize(gd.PkgName+"_"+gd.Name)] = true
+						hn := "GH_" + sanitize(gd.PkgName+"_"+gd.Name)
+						ex[hn] = true
+						if _, known := e.heapSorts[hn]; !known {
+							e.heapSorts[hn] = e.sortOf(e.resolveType(gd.Type, gd.PkgName))
+						}
 						e.assumes["`modifies everything` of a callee does not include ghost variables of packages the callee's package does not import"] = true
 					}
 				}
@@ -1089,6 +1096,15 @@ func (st *State) havocAllExcept(except map[string]bool) {
 			st.store(k.p, k.v)
 		}
 	}()
+	// a heap variable that is excepted but has not been mentioned on this path yet must keep the version it has NOW
+	// (an earlier havoc-all may have started a new epoch): materialise it before the epoch changes
+	for name := range except {
+		if _, ok := st.heap[name]; !ok {
+			if srt, known := e.heapSorts[name]; known {
+				st.heapGet(name, srt)
+			}
+		}
+	}
 	for name := range st.heap {
 		if name == "RO" || except[name] || strings.HasPrefix(name, "NC_") || strings.HasPrefix(name, "NCF_") || strings.HasPrefix(name, "NCR_") || strings.HasPrefix(name, "NCS_") {
 			// (call counters count the calls made by the unit's own body: a callee cannot change them)
@@ -1112,8 +1128,11 @@ func (e *Engine) preservedNames(spec *FuncSpec) map[string]bool {
 		e.modifiesHeapNames(spec, p, ws)
 	}
 	out := map[string]bool{}
-	for n := range ws.heap {
+	for n, srt := range ws.heap {
 		out[n] = true
+		if _, known := e.heapSorts[n]; !known {
+			e.heapSorts[n] = srt
+		}
 	}
 	return out
 }
